@@ -17,7 +17,8 @@ import (
 // C15 — start-up fails fast instead of running on an inconsistent or partial basis.
 
 type c15Params struct {
-	Fault       string         `json:"fault"` // none ahead load seqno seqno-omit failover open reopen reopen-during-open badmeta badmember
+	Fault       string         `json:"fault"`                  // none ahead load seqno seqno-omit failover open reopen reopen-during-open badmeta badmember badfile
+	FileContent string         `json:"file_content,omitempty"` // badfile: empty | half | garbage (what is left of the checkpoint file)
 	NumVB       int            `json:"num_vb"`
 	Nodes       int            `json:"nodes"`
 	VBs         []int          `json:"vbs,omitempty"` // affected vBuckets
@@ -120,6 +121,16 @@ func init() {
 					n := 2 + rng.Intn(3)
 					add(c15Params{Fault: "reopen", NumVB: n, Nodes: 1, VBs: []int{rng.Intn(n)}, Status: 0x24, WaitMs: 9000}, 90)
 					add(c15Params{Fault: "reopen-during-open", NumVB: 2 + rng.Intn(3), Nodes: 1, ExpectStart: true}, 60)
+				}
+				// a checkpoint file that exists but cannot be read as checkpoints (truncated to nothing, cut in the middle, garbage)
+				fc := []string{"empty", "half", "garbage"}
+				for k := 0; k < 2; k++ {
+					n := 2 + rng.Intn(3)
+					st := map[int]uint64{}
+					for vb := 0; vb < n; vb++ {
+						st[vb] = uint64(1 + rng.Intn(15))
+					}
+					add(c15Params{Fault: "badfile", NumVB: n, Nodes: 1, Backend: "file", Stored: st, FileContent: fc[(r*2+k)%3], AutoReset: []string{"", "latest"}[rng.Intn(2)]}, 60)
 				}
 				add(c15Params{Fault: "badmeta", NumVB: 2, Nodes: 1}, 60)
 				add(c15Params{Fault: "badmember", NumVB: 2, Nodes: 1}, 60)
@@ -231,6 +242,14 @@ func runC15(sc drv.Scenario) drv.Result {
 			m[fmt.Sprint(vb)] = map[string]any{"checkpoint": map[string]any{"vbuuid": 0xabc000 + uint64(vb), "seqno": s, "snapshot": map[string]any{"startSeqno": s, "endSeqno": s}}, "bucketUuid": env.Sim.UUID}
 		}
 		b, _ := json.MarshalIndent(m, "", "  ")
+		switch p.FileContent {
+		case "empty":
+			b = []byte{}
+		case "half":
+			b = b[:len(b)/2]
+		case "garbage":
+			b = []byte("\x00\x01not json at all\n")
+		}
 		writeFile(path, b)
 		defer removeFile(path)
 		cfg.Metadata.Type = "file"
